@@ -48,6 +48,27 @@ BIGART = [c + " linger" for c in (
     f"bigart e {3 * 1048576} 65536 0", "bigart e 4051 65536 1", "bigart f 4068 65536 0", f"bigart e {17 * 1048576} {32 * 1048576} 0")]
 
 
+BIGREQ = [f"bigreq {n} {w}" for n in (1000, 70000, 2 * 1048576 - 64, 2 * 1048576 + 64, 5 * 1048576) for w in "wi"]
+
+
+def judge_bigreq(case, out):
+    """A request of any size is one request: written whole after the noidle exchange (or inside the window), answered, and idle follows;
+    the next request finds the session in step."""
+    import re
+    _, n, where = case.split(" ")
+    want_results = "ok,ok,ok" if where == "w" else "ok,ok"
+    want_session = (f"idle,noidle,ping,echo({n}),idle,noidle,status,idle" if where == "w" else f"idle,noidle,echo({n}),idle,noidle,status,idle")
+    if int(n) <= 100:
+        want_session = want_session.replace(f"echo({n})", "echo")
+    m = re.fullmatch(r"results=(\S*) session=(\S*)", out.strip())
+    # (on a stalled machine the window may have expired before the big request was issued: then it is taken from the idling state)
+    alt_session = want_session.replace("ping,echo", "ping,idle,noidle,echo")
+    if not m or m.group(1) != want_results or m.group(2) not in (want_session, alt_session):
+        return (f"a {n}-byte request {'inside the re-idle window' if where == 'w' else 'from the idling state'}, then another request: got {out[:300]}; "
+                f"expected results {want_results} and the server to see {want_session}")
+    return None
+
+
 def judge_bigart_session(case, out):
     """Large binary replies (their payload holds lines that look like protocol lines): whatever arrives, the client's side of the
     session stays idle, noidle, the picture requests, and at most one idle after them."""
@@ -63,13 +84,14 @@ def judge_bigart_session(case, out):
 
 
 def run(ctx, only=None):
-    if only is not None and only and isinstance(only[0], str) and only[0].startswith("bigart"):
+    if only is not None and only and isinstance(only[0], str) and only[0].startswith(("bigart", "bigreq")):
         bad = 0
         for c, o in zip(only, ctx.run_impl(only)):
             print("case:", c, "\nimpl:", o)
-            if judge_bigart_session(c, o):
+            m = judge_bigreq(c, o) if c.startswith("bigreq") else judge_bigart_session(c, o)
+            if m:
                 bad += 1
-                print("VIOLATION property=C05 replay=(this case)", judge_bigart_session(c, o))
+                print("VIOLATION property=C05 replay=(this case)", m)
         return 1 if bad else 0
     scheds = only if only is not None else gen(ctx)
     results = L.run_schedules(ctx, scheds)
@@ -89,6 +111,10 @@ def run(ctx, only=None):
         for m in v[:3]:
             fails.append(Failure(r["sched"].model_case(), m + "\n  written: " + " ".join(repr(l) for l in lines[:60]), extra={"impl_case": r["impl_case"]}))
     if only is None:
+        for c, o in zip(BIGREQ, ctx.run_impl(BIGREQ)):
+            m = judge_bigreq(c, o)
+            if m:
+                fails.append(Failure(c, m, extra={"bigart": True}))
         for c, o in zip(BIGART, ctx.run_impl(BIGART)):
             m = judge_bigart_session(c, o)
             if m:
@@ -120,7 +146,7 @@ def run(ctx, only=None):
 
 def replay(ctx, payload):
     cases = payload.get("cases", [])
-    if cases and cases[0].startswith("bigart"):
+    if cases and cases[0].startswith(("bigart", "bigreq")):
         return run(ctx, only=list(cases))
     if payload.get("extra", {}).get("tie"):
         # a select! tie: the outcome depends on tokio's random branch choice; run it several times
